@@ -248,8 +248,10 @@ CHECKS["C10"] = {
     "assumptions": ["fmp4 Init/Part Marshal+Unmarshal are mutually inverse (symbolically an identity on the value; natively the real serialisation)", "PartSample.GetH264 returns the payload as one NAL unit (symbolic build)",
                     "time.Since returns a large value (no pacing sleep), time.After fires immediately", "harness implementations of the small client/downloader interfaces"],
     "outside": ["MPEG-TS demuxing and 33-bit wrap (mediacommon TimeDecoder)", "rendition playlists processed by a second stream processor", "byte-range addressing (C11)"],
-    "runs": [{"name": "run.cli.fmp4", "files": CLIP, "fn": "VerifH_C10_fmp4", "workers": 16, "params_quick": {"MAXSEGS": 1, "MAXFRAGS": 2, "MAXSAMPLES": 2},
-              "params_thorough": {"MAXSEGS": 2, "MAXFRAGS": 2, "MAXSAMPLES": 2}, "reach": ["ran"], "budget_quick": 900, "budget_thorough": 7200, "qtimeout": 60000}],
+    "runs": [{"name": "run.cli.fmp4.times", "files": CLIP, "fn": "VerifH_C10_fmp4", "workers": 16, "params": {"DATETIME": 0}, "params_quick": {"MAXSEGS": 1, "MAXFRAGS": 2, "MAXSAMPLES": 2},
+              "params_thorough": {"MAXSEGS": 2, "MAXFRAGS": 2, "MAXSAMPLES": 2}, "reach": ["ran"], "budget_quick": 600, "budget_thorough": 7200, "qtimeout": 60000},
+             {"name": "run.cli.fmp4.abstime", "files": CLIP, "fn": "VerifH_C10_fmp4", "workers": 16, "params": {"DATETIME": 1}, "params_quick": {"MAXSEGS": 1, "MAXFRAGS": 1, "MAXSAMPLES": 2, "DTBASEBITS": 24},
+              "params_thorough": {"MAXSEGS": 2, "MAXFRAGS": 1, "MAXSAMPLES": 2, "DTBASEBITS": 32}, "reach": ["ran"], "budget_quick": 600, "budget_thorough": 7200, "qtimeout": 60000}],
 }
 CHECKS["C13"] = {
     "technique": "the same real client stages on well-formed-but-unexpected parse results (every fMP4 codec kind, time scale 0, track-id permutations, empty fragments, absurd counts and values); engine panic / deadlock checks are the assertion",
